@@ -163,11 +163,11 @@ func ruleNotifySites(c *Ctx, r *Reporter) {
 	}
 	// (b) who may call the notifying entry points
 	notifying := map[string][]string{
-		"part.(Txn).Notify":           {"statedb.(partIndexTxn).notify", "part.(Txn).CommitAndNotify"},
-		"part.(Txn).CommitAndNotify":  {"part.(Tree).Insert", "part.(Tree).Modify", "part.(Tree).Delete"},
-		"part.(Tree).Insert":          {},
-		"part.(Tree).Modify":          {},
-		"part.(Tree).Delete":          {},
+		"part.(Txn).Notify":                        {"statedb.(partIndexTxn).notify", "part.(Txn).CommitAndNotify"},
+		"part.(Txn).CommitAndNotify":               {"part.(Tree).Insert", "part.(Tree).Modify", "part.(Tree).Delete"},
+		"part.(Tree).Insert":                       {},
+		"part.(Tree).Modify":                       {},
+		"part.(Tree).Delete":                       {},
 		"iface:statedb.tableIndexTxnNotify.notify": {"statedb.(writeTxnHandle).Commit"},
 		"statedb.(partIndexTxn).notify":            {},
 		"statedb.(lpmIndexTxn).notify":             {},
